@@ -421,7 +421,19 @@ fn name_strategy() -> impl Strategy<Value = String> {
 pub fn callset_strategy(p: GenParams) -> impl Strategy<Value = CallSet> {
     let max_samples = p.max_samples;
     (
-        prop::collection::vec("[A-Za-z][A-Za-z0-9_]{0,5}", 1..=3),
+        // contig name stems: plain identifiers, and what real references use (bare numbers, chrUn_..,
+        // accession.version, HLA alleles with `*`, `:` and `-`)
+        prop::collection::vec(
+            prop_oneof![
+                6 => "[A-Za-z][A-Za-z0-9_]{0,5}".prop_map(|b| format!("ctg{b}")),
+                1 => Just(String::new()),
+                1 => Just("chr".to_string()),
+                1 => Just("chrUn_gl0002".to_string()),
+                1 => Just("GL000192.".to_string()),
+                1 => Just("HLA-A*01:01:".to_string()),
+            ],
+            1..=3,
+        ),
         1usize..=max_samples,
         prop::collection::vec(name_strategy(), max_samples),
         prop::collection::vec(record_strategy(&p), 0..=p.max_records),
@@ -431,7 +443,7 @@ pub fn callset_strategy(p: GenParams) -> impl Strategy<Value = CallSet> {
 
 pub fn finish_callset(contig_bases: Vec<String>, n_samples: usize, name_bases: Vec<String>, mut records: Vec<Record>) -> CallSet {
     // distinct, distinctive contig names
-    let contigs: Vec<String> = contig_bases.iter().enumerate().map(|(i, b)| format!("ctg{b}{}", 7 + i)).collect();
+    let contigs: Vec<String> = contig_bases.iter().enumerate().map(|(i, b)| if b.starts_with("ctg") || b.is_empty() || b.ends_with(|c: char| !c.is_ascii_alphanumeric()) || b == "chr" || b.starts_with("chrUn") { format!("{b}{}", 7 + i) } else { format!("ctg{b}{}", 7 + i) }).collect();
     let samples: Vec<String> = name_bases.iter().take(n_samples).enumerate().map(|(i, b)| format!("{b}x{i}")).collect();
     // positions: increasing within a contig; contigs in blocks
     let n_contigs = contigs.len();
